@@ -275,6 +275,9 @@ impl Uci {
                 self.game = Game::new();
                 self.is_stopped.reset();
 
+                // The latch no longer belongs to any search, so a later `stop` must not wait on it
+                self.control = None;
+
                 let mut persistent_state_handle = self.persistent_state.lock().unwrap();
                 persistent_state_handle.reset();
             }
